@@ -1,0 +1,155 @@
+//go:build verif
+// +build verif
+
+// Package verifrt is the harness runtime of the verification machinery kept
+// in /verif. It is compiled only under the build tag "verif".
+//
+// Under the symbolic executor every function of this package is intercepted.
+// Compiled natively the functions replay recorded values, so that a solver
+// assignment (or a path witness) can be re-run against the real build.
+package verifrt
+
+import (
+	"encoding/hex"
+	"fmt"
+)
+
+// Case is one recorded execution: input values in call order, configuration
+// picks and tier parameters.
+type Case struct {
+	Harness string         `json:"harness"`
+	Values  []uint64       `json:"values"`
+	Picks   map[string]int `json:"picks"`
+	Params  map[string]int `json:"params"`
+}
+
+// Outcome is what a native run observed.
+type Outcome struct {
+	Status      string     `json:"status"` // done | assume | violation | panic
+	Assert      string     `json:"assert,omitempty"`
+	Panic       string     `json:"panic,omitempty"`
+	Obs         [][2]string `json:"obs,omitempty"`
+	Covers      []string   `json:"covers,omitempty"`
+	ValuesUsed  int        `json:"values_used"`
+	OutOfValues bool       `json:"out_of_values,omitempty"`
+}
+
+type assumeFailed struct{}
+type assertFailed struct{ label string }
+
+var (
+	cur *Case
+	pos int
+	out *Outcome
+)
+
+func next() uint64 {
+	if cur == nil {
+		panic("verifrt: no replay case installed")
+	}
+	if pos >= len(cur.Values) {
+		out.OutOfValues = true
+		pos++
+		return 0
+	}
+	v := cur.Values[pos]
+	pos++
+	return v
+}
+
+func U8() uint8   { return uint8(next()) }
+func U16() uint16 { return uint16(next()) }
+func U32() uint32 { return uint32(next()) }
+func U64() uint64 { return next() }
+func Int() int    { return int(next()) }
+func Bool() bool  { return next()&1 != 0 }
+
+// Bytes returns n fresh symbolic bytes.
+func Bytes(n int) []byte {
+	b := make([]byte, n)
+	for i := range b {
+		b[i] = uint8(next())
+	}
+	return b
+}
+
+func Assume(c bool) {
+	if !c {
+		panic(assumeFailed{})
+	}
+}
+
+func Assert(c bool, label string) {
+	if !c {
+		panic(assertFailed{label})
+	}
+}
+
+func Cover(label string) { out.Covers = append(out.Covers, label) }
+
+// Concretize asks the executor to case-split on v; natively the identity.
+func Concretize(v int) int { return v }
+
+// Pick is a configuration choice enumerated by the driver.
+func Pick(label string, n int) int {
+	v, ok := cur.Picks[label]
+	if !ok {
+		panic("verifrt: no pick for " + label)
+	}
+	if v < 0 || v >= n {
+		panic(assumeFailed{})
+	}
+	return v
+}
+
+// Param is a tier-dependent bound.
+func Param(name string) int {
+	v, ok := cur.Params[name]
+	if !ok {
+		panic("verifrt: no param " + name)
+	}
+	return v
+}
+
+func Observe(label string, v uint64) {
+	out.Obs = append(out.Obs, [2]string{label, fmt.Sprintf("%x", v)})
+}
+
+func ObserveBytes(label string, b []byte) {
+	out.Obs = append(out.Obs, [2]string{label, hex.EncodeToString(b)})
+}
+
+// Origin tags the following assertions with a stable origin string.
+func Origin(tag string) {}
+
+// Run executes one harness natively under a recorded case.
+func Run(c *Case, f func()) (o *Outcome) {
+	cur, pos = c, 0
+	out = &Outcome{Status: "done"}
+	o = out
+	defer func() {
+		o.ValuesUsed = pos
+		if r := recover(); r != nil {
+			switch x := r.(type) {
+			case assumeFailed:
+				o.Status = "assume"
+			case assertFailed:
+				o.Status = "violation"
+				o.Assert = x.label
+			default:
+				o.Status = "panic"
+				o.Panic = fmt.Sprint(r)
+			}
+		}
+		cur = nil
+	}()
+	f()
+	return
+}
+
+// Err is a distinct, identity-comparable error value for fault models.
+type Err struct{ Tag string }
+
+func (e *Err) Error() string { return "verifrt error " + e.Tag }
+
+func ErrValue(tag string) error { return &Err{tag} }
